@@ -392,43 +392,92 @@ def child_main(inp: str, outp: str):
     (tmp / (G.EVIL_MOD + ".py")).write_text("open(%r, 'w').write('imported')\ndef go():\n    pass\n" % str(tmp / "PWNED"))
     sys.path.insert(0, str(tmp))
     pre_loaded = [m for m in G.CANARY_MODULES if m in sys.modules]
-    res = []
-    for c in cases:
-        res.append(_run_one(c, tmp, prof))
-    Path(outp).write_text(json.dumps({"results": res, "bound_ok": bound_ok, "pre_loaded": pre_loaded, "prefixes": [sys.prefix, sys.base_prefix, str(core.REPO)]},
-                                     ensure_ascii=True, default=repr))
+    with open(outp, "w") as out:  # one line per finished case: a hang leaves the finished ones readable
+        out.write(json.dumps({"meta": {"bound_ok": bound_ok, "pre_loaded": pre_loaded, "prefixes": [sys.prefix, sys.base_prefix, str(core.REPO)]}}) + "\n")
+        out.flush()
+        for c in cases:
+            out.write(json.dumps(_run_one(c, tmp, prof), ensure_ascii=True, default=repr) + "\n")
+            out.flush()
     import shutil
 
     shutil.rmtree(tmp, ignore_errors=True)
 
 
-def run_children(cases: list[dict], nproc: int = core.NCPU, timeout: int = 1500):
-    """run the cases in `nproc` fresh interpreters (an audit hook cannot be removed, so never in the check's own process)"""
+def _blank(**flags):
+    r = {"events": [], "adhoc": [], "steps": [], "sentinel": False, "stray_files": [], "allowed": [], "canary_loaded": [], "tmp": "", "harness_error": None, "truth_file": None}
+    r.update(flags)
+    return r
+
+
+def run_children(cases: list[dict], nproc: int = core.NCPU, timeout: int = 600):
+    """run the cases in `nproc` fresh interpreters (an audit hook cannot be removed, so never in the check's own process).
+    A case that does not return (e.g. executed input waiting on stdin) yields {"timeout": True}; the cases behind it in the same
+    child are re-run in a new child."""
     if not cases:
         return [], {}
     nproc = max(1, min(nproc, (len(cases) + 7) // 8))
-    shards = [cases[i::nproc] for i in range(nproc)]
     d = Path(tempfile.mkdtemp(prefix="c17io_"))
     env = dict(os.environ)
     env["PYTHONPATH"] = os.pathsep.join([str(core.REPO), str(core.VERIF)] + ([env["PYTHONPATH"]] if env.get("PYTHONPATH") else []))
     env["PYTHONDONTWRITEBYTECODE"] = "1"
     env["PYTHONHASHSEED"] = "0"
+    n_timeouts = [0]
 
     def run(k):
-        fi, fo = d / ("in%d.json" % k), d / ("out%d.json" % k)
-        fi.write_text(json.dumps(shards[k], ensure_ascii=True))
-        p = subprocess.run([core.PY, "-c", "from harness.props import c17; c17.child_main(%r, %r)" % (str(fi), str(fo))],
-                           stdout=subprocess.PIPE, stderr=subprocess.PIPE, text=True, env=env, cwd=str(core.VERIF), timeout=timeout)
-        if p.returncode != 0 or not fo.exists():
-            raise core.HarnessError("c17 child failed (rc=%s): %s" % (p.returncode, p.stderr[-2000:]))
-        return json.loads(fo.read_text())
+        idxs = list(range(k, len(cases), nproc))
+        out, meta, attempt = {}, None, 0
+        while idxs:
+            attempt += 1
+            fi, fo = d / ("in%d_%d.json" % (k, attempt)), d / ("out%d_%d.json" % (k, attempt))
+            fi.write_text(json.dumps([cases[i] for i in idxs], ensure_ascii=True))
+            timed_out = False
+            try:
+                p = subprocess.run([core.PY, "-c", "from harness.props import c17; c17.child_main(%r, %r)" % (str(fi), str(fo))], stdin=subprocess.DEVNULL,
+                                   stdout=subprocess.PIPE, stderr=subprocess.PIPE, text=True, env=env, cwd=str(core.VERIF), timeout=timeout)
+            except subprocess.TimeoutExpired:
+                timed_out, p = True, None
+            lines = fo.read_text().split("\n") if fo.exists() else []
+            recs = []
+            for ln in lines:
+                try:
+                    recs.append(json.loads(ln))
+                except ValueError:
+                    break  # a partially written last line
+            if recs and "meta" in recs[0]:
+                meta = meta or recs[0]["meta"]
+                recs = recs[1:]
+            elif not timed_out:
+                raise core.HarnessError("c17 child failed (rc=%s): %s" % (p.returncode if p else None, (p.stderr if p else "")[-2000:]))
+            for i, r in zip(idxs, recs):
+                out[i] = r
+            done = len(recs)
+            if done == len(idxs):
+                break
+            # the child died or hung on case idxs[done]
+            if timed_out:
+                out[idxs[done]] = _blank(timeout=True)
+                n_timeouts[0] += 1
+            else:
+                out[idxs[done]] = _blank(crashed=True, stderr=(p.stderr or "")[-1500:], rc=p.returncode)
+            idxs = idxs[done + 1:]
+            if n_timeouts[0] > 3:
+                for i in idxs:
+                    out[i] = _blank(skipped=True)
+                break
+        return out, meta
 
     with cf.ThreadPoolExecutor(nproc) as ex:
         outs = list(ex.map(run, range(nproc)))
     res = [None] * len(cases)
-    for k, o in enumerate(outs):
-        res[k::nproc] = o["results"]
-    meta = {"bound_ok": all(o["bound_ok"] for o in outs), "pre_loaded": sorted({m for o in outs for m in o["pre_loaded"]}), "prefixes": outs[0]["prefixes"]}
+    metas = []
+    for o, m in outs:
+        for i, r in o.items():
+            res[i] = r
+        if m:
+            metas.append(m)
+    if not metas:
+        raise core.HarnessError("no c17 child produced any result")
+    meta = {"bound_ok": all(m["bound_ok"] for m in metas), "pre_loaded": sorted({x for m in metas for x in m["pre_loaded"]}), "prefixes": metas[0]["prefixes"]}
     import shutil
 
     shutil.rmtree(d, ignore_errors=True)
@@ -451,6 +500,12 @@ def judge(case, rec, meta, predict):
     out = []
     fn = case["fn"]
     control = fn == "control_input_eval"
+    if rec.get("skipped"):
+        return out
+    if rec.get("timeout"):
+        return [({"kind": "hang", "fn": fn}, "the real %s call did not return (child process blocked, e.g. executed input waiting on stdin or a socket)" % fn)]
+    if rec.get("crashed"):
+        return [({"kind": "process-died", "fn": fn}, "the child process running the real %s call died (rc=%s): %s" % (fn, rec.get("rc"), rec.get("stderr", "")[-300:]))]
     tmp = rec["tmp"]
     roots = [os.path.realpath(p) for p in meta["prefixes"]]
     allowed = {os.path.realpath(a) for a in rec["allowed"]}
